@@ -100,6 +100,7 @@ def gen_bounds(rng, cols):
 def gen_model(rng, naming=None):
     """returns the model tree [name, sense, objrow, objconst, rows, cols, bounds]"""
     naming = naming or rng.choice(["foreign", "foreign", "foreign", "ommx", "ommx-cols", "ommx-rows", "ommx-bad"])
+    clash = False
     ncols = rng.randint(1, 6)
     nrows = rng.randint(0, 5)
     if naming in ("ommx", "ommx-cols", "ommx-bad"):
@@ -123,6 +124,10 @@ def gen_model(rng, naming=None):
         # a declared row that collides with a generated RANGES name
         if nrows >= 2 and rng.random() < 0.1:
             rnames[1] = rnames[0] + "_"
+        # ... or the OBJECTIVE row carries the name a RANGES entry on row 0 would generate (fix 401c8f6)
+        elif nrows >= 1 and rng.random() < 0.12:
+            objrow = rnames[0] + "_"
+            clash = True
     rows = []
     for rn in rnames:
         ty = rng.choice(["E", "L", "G", "E", "L", "G", "N"])
@@ -132,6 +137,9 @@ def gen_model(rng, naming=None):
             rg = dyadic(rng, nonzero=True)
         if ty == "N":
             rhs = None if rng.random() < 0.7 else rhs
+        if clash and not rows:
+            ty = rng.choice(["E", "L", "G"])
+            rg = dyadic(rng, nonzero=True)
         rows.append([rn, ty, opt(rhs, num), opt(rg, num)])
     cols = []
     allrows = [objrow] + rnames
@@ -152,7 +160,7 @@ def gen_model(rng, naming=None):
         cols.sort(key=lambda c: c[1])
     bounds = gen_bounds(rng, [(c[0], c[1], None) for c in cols])
     sense = rng.choice([None, False, True, True])
-    objconst = 0.0 if rng.random() < 0.4 else dyadic(rng)
+    objconst = 0.0 if (rng.random() < 0.4 and not clash) else dyadic(rng, nonzero=clash)
     name = rng.choice(PROB_NAMES)
     model = [name, opt(sense, lambda b: 1 if b else 0), objrow, num(objconst), rows, cols, bounds]
     return model, naming
